@@ -128,6 +128,7 @@ class SSIdat(BaseAlgorithm[SSIRunParams, SSIResult, typing.Iterable[float]]):
         Fns, Xis, Phis, Lambds, Fn_cov, Xi_cov, Phi_cov = gen.applymask(
             lista, mask3, Phis.shape[2]
         )
+        lista = [Fns, Xis, Phis, Lambds, Fn_cov, Xi_cov, Phi_cov]
         Fns, Xis, Phis, Lambds, Fn_cov, Xi_cov, Phi_cov = gen.applymask(
             lista, mask4, Phis.shape[2]
         )
@@ -518,6 +519,7 @@ class SSIdat_MS(SSIdat[SSIRunParams, SSIResult, typing.Iterable[dict]]):
         Fns, Xis, Phis, Lambds, Fn_cov, Xi_cov, Phi_cov = gen.applymask(
             lista, mask3, Phis.shape[2]
         )
+        lista = [Fns, Xis, Phis, Lambds, Fn_cov, Xi_cov, Phi_cov]
         Fns, Xis, Phis, Lambds, Fn_cov, Xi_cov, Phi_cov = gen.applymask(
             lista, mask4, Phis.shape[2]
         )
